@@ -283,26 +283,38 @@ def rheight(rng, dec) -> dict:
     if r < 0.5 or dec == 0:
         return dict(ONE)
     scale = 10 ** dec
+    if dec >= 4 and r > 0.9:        # not 1, but well inside the comparison tolerance of 1 (at most 0.0008 away): the language writes no height
+        v = scale + rng.choice([-1, 1]) * rng.randint(1, 8 * scale // 10000)
+        return {"k": "num", "neg": False, "hi": "", "ip": v // scale, "fp": v % scale}
     while True:
         v = rng.randint(0, 3 * scale)
         if abs(v - scale) * 500 > scale:        # further from 1 than twice the comparison tolerance
             return {"k": "num", "neg": False, "hi": "", "ip": v // scale, "fp": v % scale}
 
 
-def rterm(rng, name, dec, classes=None, formula_vars=("x",)) -> dict:
+def poly_term(rng, name, dec, n) -> dict:
+    """a Function term whose formula is a polynomial in x with n coefficients held as the term's own variables"""
+    return {"name": name, "cls": "Function", "p": [], "h": dict(ONE),
+            "f": ["c0"] + [tok for j in range(1, n) for tok in ("+", f"c{j}", "*", "x", "^", str(j))],
+            "fv": [{"n": f"c{j}", "v": rnum(rng, dec, special=0)} for j in range(n)]}
+
+
+def rterm(rng, name, dec, classes=None, formula_vars=("x",), wide=False) -> dict:
     cls = rng.choice(classes or list(ATTRS) + ["Discrete", "Linear", "Function"])
     t = {"name": name, "cls": cls, "p": [], "h": dict(ONE), "f": [], "fv": []}
     if cls == "Function":
         v = rng.choice(formula_vars)
         if rng.random() < 0.35:     # a Function term with its own variables (Python representation only: the language cannot hold them)
+            if rng.random() < 0.3:      # a polynomial with five to seven coefficients of its own
+                return poly_term(rng, name, dec, rng.randint(5, 7))
             t["f"] = ["gain", "*", "x", "+", v, "-", "bias"]
             t["fv"] = [{"n": "gain", "v": rnum(rng, dec, special=0)}, {"n": "bias", "v": rnum(rng, dec, special=0.2)}]
             return t
         t["f"] = rng.choice([["x"], [fmt(rnum(rng, dec, 0, 3, special=0), dec).lstrip("-"), "*", v, "+", "x"], ["max", "(", v, ",", "x", ")", "^", "2"], ["sin", "(", v, ")", "/", "(", "x", "+", "1.5", ")"]])
     elif cls == "Linear":
-        t["p"] = [rnum(rng, dec, special=0) for _ in range(rng.randint(0, 3))]
+        t["p"] = [rnum(rng, dec, special=0) for _ in range(rng.randint(7, 10) if wide else rng.randint(0, 3))]
     elif cls == "Discrete":
-        xs = sorted(rng.sample(range(-30, 31), rng.randint(1, 4)))
+        xs = sorted(rng.sample(range(-30, 31), rng.randint(12, 40) if wide else rng.randint(1, 4)))
         scale = 10 ** dec
         for x in xs:
             v = x * scale // 10
@@ -349,14 +361,19 @@ def rrule(rng, e, dec) -> dict:
     return {"toks": toks, "w": rheight(rng, dec) if rng.random() < 0.4 else dict(ONE)}
 
 
-def rengine(rng: random.Random, dec: int, k: int) -> dict:
+def rengine(rng: random.Random, dec: int, k: int, wide: bool = False) -> dict:
+    """wide: more of everything than any container-size limit of a printer would allow silently (7-9 inputs, 7-8 terms each,
+    tables of 12-40 pairs, 8-12 rules, long descriptions)"""
     e = {"name": rng.choice(["", "engine", f"e{k}"]), "desc": rng.choice([[], ["seeded", "engine", str(k)]]), "inputs": [], "outputs": [], "blocks": []}
-    names = iter(["alpha", "beta", "gamma", "power", "speed", "tip"])
-    for _ in range(rng.choice([0, 1, 2, 2, 3])):
+    if wide:
+        e["desc"] = [f"word{j}" for j in range(rng.randint(30, 60))]
+    names = iter(["alpha", "beta", "gamma", "power", "speed", "tip", "delta", "omega", "kappa", "sigma", "theta", "lambda_"])
+    nterms = (lambda: rng.choice([7, 8])) if wide else (lambda: rng.choice([0, 1, 2, 3]))
+    for _ in range(rng.choice([7, 8, 9]) if wide else rng.choice([0, 1, 2, 2, 3])):
         nm = next(names)
         e["inputs"].append({"name": nm, "desc": rng.choice([[], ["input", nm]]), "enabled": rng.random() < 0.85, "min": rnum(rng, dec, -3, 0), "max": rnum(rng, dec, 0, 3),
                             "lockRange": rng.random() < 0.3,
-                            "terms": [rterm(rng, f"t{j}", dec, [c for c in list(ATTRS) + ["Discrete"] if c != "Constant"]) for j in range(rng.choice([0, 1, 2, 3]))]})
+                            "terms": [rterm(rng, f"t{j}", dec, [c for c in list(ATTRS) + ["Discrete"] if c != "Constant"], wide=wide) for j in range(nterms())]})
     invars = tuple(v["name"] for v in e["inputs"]) or ("x",)
     for _ in range(rng.choice([0, 1, 1, 2])):
         nm = next(names)
@@ -366,7 +383,7 @@ def rengine(rng: random.Random, dec: int, k: int) -> dict:
                              "aggr": rng.choice(["none"] + SNORMS),
                              "defuzz": (rng.choice([{"cls": "none", "res": 0, "type": ""}] + [{"cls": c, "res": 0, "type": ty} for c in WEIGHTED for ty in ("Automatic", "TakagiSugeno", "Tsukamoto")])
                                         if ts else rng.choice([{"cls": c, "res": r, "type": ""} for c in INTEGRAL for r in (1000, 100, 7, 1000)])),
-                             "terms": [rterm(rng, f"u{j}", dec, (["Constant", "Linear", "Function", "Ramp", "Sigmoid"] if ts else None), invars) for j in range(rng.choice([0, 1, 2, 3]))]})
+                             "terms": [rterm(rng, f"u{j}", dec, (["Constant", "Linear", "Function", "Ramp", "Sigmoid"] if ts else None), invars, wide=wide) for j in range(nterms())]})
     for bi in range(rng.choice([0, 1, 1, 2])):
         act = rng.choice([{"cls": "none", "n": 0, "thr": dict(NONUM), "cmp": ""}, {"cls": "General", "n": 0, "thr": dict(NONUM), "cmp": ""}, {"cls": "Proportional", "n": 0, "thr": dict(NONUM), "cmp": ""},
                           {"cls": rng.choice(["First", "Last"]), "n": rng.randint(0, 4), "thr": rnum(rng, dec, 0, 1, special=0), "cmp": ""},
@@ -375,6 +392,6 @@ def rengine(rng: random.Random, dec: int, k: int) -> dict:
         b = {"name": rng.choice(["", f"rules{bi}"]), "desc": rng.choice([[], ["block", str(bi)]]), "enabled": rng.random() < 0.85, "conj": rng.choice(["none"] + TNORMS),
              "disj": rng.choice(["none"] + SNORMS), "impl": rng.choice(["none"] + TNORMS), "act": act, "rules": []}
         if any(v["terms"] for v in e["outputs"]) and any(v["terms"] for v in e["inputs"] + e["outputs"]):
-            b["rules"] = [rrule(rng, e, dec) for _ in range(rng.choice([0, 1, 2, 4]))]
+            b["rules"] = [rrule(rng, e, dec) for _ in range(rng.choice([8, 10, 12]) if wide else rng.choice([0, 1, 2, 4]))]
         e["blocks"].append(b)
     return e
